@@ -193,9 +193,11 @@ def rejection_cases(rng):
                 out.append((desc, bad, dname, m))
         pref = [0.5, 1.0, 1.5, 2.0]
         for name, key in (("Constant", "weights"), ("UPGrad", "pref"), ("DualProj", "pref"), ("AlignedMTL", "pref"), ("ConFIG", "pref"), ("GradDrop", "leak")):
-            vals = [0.1, 0.4, 0.6, 0.9] if key == "leak" else pref
-            for mm in (3, 5):
-                out.append(({"name": name, key: vals}, "rows", dname, mm))
+            # every length of the configured vector (a single entry included: it must not be broadcast) against fewer / more rows
+            for L in (1, 2, 3, 4, 6):
+                vals = [0.1, 0.4, 0.6, 0.9, 0.3, 0.7][:L] if key == "leak" else (pref + [0.7, 1.2])[:L]
+                for mm in sorted({1, 2, 3, 5, 7, L - 1, L + 1} - {0, L}):
+                    out.append(({"name": name, key: vals}, "rows", dname, mm))
         for b in (1, 2, 3):
             for mm in range(1, 2 * b + 1):
                 out.append(({"name": "TrimmedMean", "b": b}, "rows", dname, mm))
